@@ -71,6 +71,25 @@ def large_cases(which):
         # the same groups interleaved (records of different groups alternate)
         inter = sorted(rows, key=lambda r: (rows.index(r) % 3, r[0])) if False else [r for k in range(3) for i, r in enumerate(rows) if i % 3 == k]
         out.append({'A': inter, 'B': None, 'a_names': None, 'b_names': None, 'q': {'type': 'select', 'items': items, 'group': [_f('a', 0)], 'join': None}})
+    elif which == 'agg-builtins':
+        # lower-case min / max / sum used both as aggregate (scalar argument) and as the Python builtin (one iterable argument) in one query
+        rows = [['g1', '3', '4'], ['g1', '10', '1'], ['g2', '5', '5'], ['g1', '2', '8'], ['g2', '7', '0']]
+        A1 = lambda fn, sp, py: {'k': 'agg', 'fn': fn, 'sp': sp, 'e': qgen.mk(py, None, 'any')}
+        key = _f('a', 0)
+        for name in ('sum', 'max', 'min'):
+            fn = name.upper()
+            builtin = '%s([int(a2), int(a3)])' % name
+            variants = [
+                [{'k': 'expr', 'e': key}, A1('ARRAY_AGG', 'ARRAY_AGG', builtin), A1(fn, name, 'int(a2)')],
+                [{'k': 'expr', 'e': key}, A1(fn, name, 'int(a2)'), A1('ARRAY_AGG', 'ARRAY_AGG', builtin)],
+                [{'k': 'expr', 'e': key}, A1(fn, name, builtin), A1(fn, name, 'int(a3)'), A1('ANY_VALUE', 'ANY_VALUE', '%s((int(a2), 0))' % name)],
+            ]
+            for items in variants:
+                out.append({'A': rows, 'B': None, 'a_names': None, 'b_names': None, 'q': {'type': 'select', 'items': items, 'group': [key], 'join': None}})
+            out.append({'A': rows, 'B': None, 'a_names': None, 'b_names': None, 'q': {'type': 'select', 'items': [A1(fn, name, 'int(a2)'), {'k': 'agg', 'fn': 'COUNT', 'sp': 'COUNT', 'star': True, 'startext': '*'}], 'group': None, 'join': None,
+                                                                                     'where': qgen.mk('%s([int(a2), int(a3)]) > 6' % name, None, 'bool')}})
+            out.append({'A': rows, 'B': None, 'a_names': None, 'b_names': None, 'q': {'type': 'select', 'items': [A1(fn, name, 'int(a2)'), {'k': 'agg', 'fn': 'COUNT', 'sp': 'count', 'star': True, 'startext': '*'}],
+                                                                                     'group': [qgen.mk('%s([len(a1), 0])' % name, None, 'int')], 'join': None}})
     elif which == 'wide-header':
         # tables with 25 / 101 named columns: every index spelling of a two- and three-digit column (a10, a20, a[10], a100, a101, b10 ...)
         for width in (25, 101):
